@@ -30,10 +30,17 @@ func GetInterfaceIP(iface *net.Interface) (ifaceIP net.IP, err error) {
 	if addrs, err = iface.Addrs(); err != nil || len(addrs) == 0 {
 		return
 	}
-	if ipnet, ok := addrs[0].(*net.IPNet); ok {
-		return ipnet.IP, nil
+	// only IPv4 is supported: first IPv4 address, the list can start with IPv6 ones
+	for _, addr := range addrs {
+		ipnet, ok := addr.(*net.IPNet)
+		if !ok {
+			return nil, fmt.Errorf("invalid IP address: %v", addr)
+		}
+		if ip4 := ipnet.IP.To4(); ip4 != nil {
+			return ip4, nil
+		}
 	}
-	return nil, fmt.Errorf("invalid IP address: %v", addrs[0])
+	return nil, nil
 }
 
 func GetLocalSubnetInterface(dstSubnet *net.IPNet) (iface *net.Interface, ifaceIP net.IP, err error) {
